@@ -26,7 +26,7 @@ from mc.ref import cost as RC
 
 ID = "C09"
 LEVEL = "exploration"
-BUDGET = {"quick": 300, "thorough": 1200}
+BUDGET = {"quick": 300, "thorough": 3600}
 CHUNK = 4
 RULE = (
     "nested: one case = one configuration (measure, window, subpix, shape, mask cell, +-cbca), all intervals inside "
